@@ -111,6 +111,26 @@ pub struct EnvObj {
     pub hi: [f32; 3],
     pub subdiv: usize,
     pub pose: Iso,
+    /// 0 = the box lo..hi; 1 = the octahedron inscribed in it (does not fill the corners of its bounding box);
+    /// 2 = two boxes in one mesh: lo..hi and a copy 0.9 m further along +y
+    pub shape: u8,
+}
+
+impl EnvObj {
+    pub fn mesh(&self) -> Mesh {
+        match self.shape {
+            1 => Mesh::octahedron(self.lo, self.hi, self.subdiv),
+            2 => {
+                let mut m = Mesh::boxed(self.lo, self.hi, self.subdiv);
+                let far = Mesh::boxed([self.lo[0], self.lo[1] + 0.9, self.lo[2]], [self.hi[0], self.hi[1] + 0.9, self.hi[2]], self.subdiv);
+                let off = m.verts.len() as u32;
+                m.verts.extend(far.verts.iter().cloned());
+                m.tris.extend(far.tris.iter().map(|t| [t[0] + off, t[1] + off, t[2] + off]));
+                m
+            }
+            _ => Mesh::boxed(self.lo, self.hi, self.subdiv),
+        }
+    }
 }
 
 #[derive(Clone, Debug)]
@@ -178,7 +198,7 @@ impl CellDesc {
             collision_environment: self
                 .envs
                 .iter()
-                .map(|e| CollisionBody { mesh: Mesh::boxed(e.lo, e.hi, e.subdiv).to_parry(), pose: to_na(&e.pose).cast::<f32>() })
+                .map(|e| CollisionBody { mesh: e.mesh().to_parry(), pose: to_na(&e.pose).cast::<f32>() })
                 .collect(),
             safety: self.safety.build(),
         }
@@ -221,7 +241,7 @@ impl CellDesc {
             bodies.push((J_BASE, base_mesh(self.base_subdiv).world_tris(b)));
         }
         for (k, e) in self.envs.iter().enumerate() {
-            bodies.push((ENV_START_IDX + k, Mesh::boxed(e.lo, e.hi, e.subdiv).world_tris(&e.pose)));
+            bodies.push((ENV_START_IDX + k, e.mesh().world_tris(&e.pose)));
         }
         let mut out = BTreeMap::new();
         for x in 0..bodies.len() {
@@ -244,7 +264,7 @@ impl CellDesc {
             "base": self.base.as_ref().map(iso_json),
             "tool": self.tool.as_ref().map(iso_json),
             "subdiv": self.subdiv.to_vec(), "tool_subdiv": self.tool_subdiv, "base_subdiv": self.base_subdiv,
-            "envs": self.envs.iter().map(|e| json!({"lo": e.lo.to_vec(), "hi": e.hi.to_vec(), "subdiv": e.subdiv, "pose": iso_json(&e.pose)})).collect::<Vec<_>>(),
+            "envs": self.envs.iter().map(|e| json!({"lo": e.lo.to_vec(), "hi": e.hi.to_vec(), "subdiv": e.subdiv, "pose": iso_json(&e.pose), "shape": e.shape})).collect::<Vec<_>>(),
             "safety": self.safety.json(),
             "para": self.para.map(|(d, c, s)| json!([d, c, s])),
         })
@@ -271,7 +291,7 @@ impl CellDesc {
                 .as_array()
                 .unwrap()
                 .iter()
-                .map(|e| EnvObj { lo: f3(&e["lo"]), hi: f3(&e["hi"]), subdiv: e["subdiv"].as_u64().unwrap() as usize, pose: iso_from_json(&e["pose"]) })
+                .map(|e| EnvObj { lo: f3(&e["lo"]), hi: f3(&e["hi"]), subdiv: e["subdiv"].as_u64().unwrap() as usize, pose: iso_from_json(&e["pose"]), shape: e["shape"].as_u64().unwrap_or(0) as u8 })
                 .collect(),
             safety: SafetyDesc::from_json(&v["safety"]),
             para: v["para"].as_array().map(|a| (a[0].as_u64().unwrap() as usize, a[1].as_u64().unwrap() as usize, a[2].as_f64().unwrap())),
